@@ -447,6 +447,10 @@ func run(ctx *Ctx) *Result {
 				if la != nil && la.acc && !skipped {
 					res.Disagree("vpn-device", c, "dev.go rejects command "+fmt.Sprint(i)+": "+err.Error(), "NA.Vpn.applyAll accepts the script")
 				}
+				if os.Getenv("VPN_DEBUG") != "" && repointed {
+					dbgN++
+					os.WriteFile(fmt.Sprintf("/tmp/b-vpn/rep-%d.txt", dbgN), []byte(fmt.Sprintf("%s\n--SPOC\n%s\n--OUT\n%s\n--ERR %d %s %v", c.Dev, c.Spoc, out, i, cmd, err)), 0644)
+				}
 				if prop == "C08" || prop == "C01" || prop == "C10" {
 					res.Fail(sig("command_rejected_by_strict_device", "reason", reasonOf(err.Error())), fmt.Sprintf("command %d %q: %v\nscript:\n%s", i, cmd, err, out), c)
 				}
